@@ -17,8 +17,12 @@ PID = "C13"
 RULE = (
     "cases: (decision matrix, weighter, row permutation, column permutation, second incoming weight vector). Matrices have 3..12 "
     "alternatives and 2..6 criteria, never square, no constant criterion (also after ideal-distance scaling and after ranking), "
-    "positive cells for EntropyWeighter, all objective mixes, distinct incoming weights, dyadic grids (with ties, integer columns "
-    "declared int) and arbitrary doubles; weighters: EqualWeighter(base_value), StdWeighter, EntropyWeighter, "
+    "positive cells for EntropyWeighter, all objective mixes, dyadic grids (with ties, integer columns declared int), arbitrary "
+    "doubles and UNIT-INTERVAL data (every cell inside [0, 1] while the criteria do not each span exactly [0, 1]: ratings 0.2..0.9, "
+    "percentages / 100, k/32 grids, probabilities, compressed sub-ranges, column shares = SumScaler output, row shares); incoming "
+    "weights: pairwise distinct, ABSENT (matrix built without weights: default all-ones), explicit ones, a uniform constant (3.5, "
+    "k/8, a double), 1/n, base_value/n, b'/n for another base_value b', or partly tied - for the first and for the second incoming "
+    "vector, every weighter, every parameterisation; weighters: EqualWeighter(base_value), StdWeighter, EntropyWeighter, "
     "CRITIC(correlation in {pearson, spearman}, scale in {True, False}). Three legs: implementation vs Lean model (Float; exact Rat for "
     "EqualWeighter) vs an independent Fraction / 50-digit Decimal evaluation of the published formulas (the property oracle), plus "
     "label-wise comparison of the permuted presentations and bit-identity of matrix / objectives / labels / dtypes. Every case is "
@@ -187,6 +191,79 @@ def _spec(rng):
     return {"cls": cls}
 
 
+UNIT_KINDS = ["ratings", "percent", "grid32", "prob", "subrange", "col-shares", "row-shares"]
+
+
+def _unit_matrix(rng, m, n, positive, ties):
+    """data that is ALREADY inside the unit interval (shares, probabilities, ratings, percentages / 100, the output of a sum
+    scaler) although the criteria do not each span exactly [0, 1]"""
+    kind = rng.choice(UNIT_KINDS)
+    lo = 1 if positive else 0
+    if kind == "ratings":
+        a = rng.randint(1, 4)
+        b = rng.randint(a + 3, 9)
+        rows = [[rng.randint(a, b) / 10 for _ in range(n)] for _ in range(m)]
+    elif kind == "percent":
+        rows = [[rng.randint(lo, 100) / 100 for _ in range(n)] for _ in range(m)]
+    elif kind == "grid32":
+        rows = [[rng.randint(lo, 32) / 32 for _ in range(n)] for _ in range(m)]
+    elif kind == "prob":
+        rows = [[rng.uniform(0.001, 1.0) for _ in range(n)] for _ in range(m)]
+    elif kind == "subrange":
+        bounds = []
+        for _ in range(n):
+            a = rng.uniform(0.0, 0.8)
+            bounds.append((a, rng.uniform(a + 0.1, 1.0)))
+        rows = [[rng.uniform(*bounds[j]) for j in range(n)] for _ in range(m)]
+    else:
+        fam = rng.choice(["dyadic", "float"])
+        raw = G.matrix(rng, m, n, fam, True, ties=0.0, dups=0.0)
+        if kind == "col-shares":  # what SumScaler(target="matrix") hands on
+            tot = [sum(r[j] for r in raw) for j in range(n)]
+            rows = [[r[j] / tot[j] for j in range(n)] for r in raw]
+        else:  # each alternative's profile as shares of its own total
+            rows = [[x / sum(r) for x in r] for r in raw]
+    for j in range(n):
+        for i in range(1, m):
+            if rng.random() < ties:
+                rows[i][j] = rows[rng.randrange(i)][j]
+    if not all(0.0 <= x <= 1.0 for r in rows for x in r):
+        return None, kind
+    if all(min(c) == 0.0 and max(c) == 1.0 for c in _cols(rows)):
+        return None, kind  # every criterion spans exactly [0, 1]: ideal-distance scaling would be the identity
+    return rows, kind
+
+
+WEIGHT_KINDS = ["distinct", "distinct", "distinct", "absent", "ones", "const", "const", "1/n", "base/n", "otherbase/n", "partly-tied"]
+
+
+def _incoming(rng, n, family, spec, kind=None):
+    """incoming weight vector of a decision matrix: the weighters must not look at it at all.  Returns (kind, vector | None);
+    None = the matrix is built WITHOUT weights (the library's default: all ones)"""
+    kind = kind or rng.choice(WEIGHT_KINDS)
+    b = float(spec.get("base_value", 1.0))
+    if kind == "absent":
+        return kind, None
+    if kind == "ones":
+        return kind, [1.0] * n
+    if kind == "const":
+        c = rng.choice([3.5, 0.5, 2.0, rng.randint(1, 80) / 8, math.ldexp(rng.uniform(0.5, 1.0), rng.randint(-4, 3)), 0.1, 100.0])
+        return kind, [c] * n
+    if kind == "1/n":
+        return kind, [1.0 / n] * n
+    if kind == "base/n":
+        return kind, [b / n] * n
+    if kind == "otherbase/n":
+        c = rng.choice([b * 2, b / 2, b + 1.0, float(rng.randint(2, 9)), rng.randint(1, 64) / 8])
+        return kind, [c / n] * n
+    w = G.weights(rng, n, "dyadic" if family == "dyadic" else "float")
+    if kind == "partly-tied":
+        for j in range(1, n):
+            if j == 1 or rng.random() < 0.5:
+                w[j] = w[rng.randrange(j)]
+    return kind, w
+
+
 def _in_domain(spec, A, objs):
     """the configuration is inside the generated domain (formula defined, well conditioned, ranks of the scaled matrix stable)"""
     w, scale = exact_weights(spec, A, objs)
@@ -234,10 +311,16 @@ def one_case(rng, max_m=12):
         spec = _spec(rng)
         n = rng.randint(2, 6)
         m = rng.choice([k for k in range(3, max_m + 1) if k != n])
-        family = rng.choice(["dyadic", "dyadic", "float"])
+        family = rng.choice(["dyadic", "dyadic", "float", "unit", "unit"])
         positive = spec["cls"] == "EntropyWeighter" or rng.random() < 0.6
         objs = G.objectives(rng, n, rng.choice(["max", "min", "mixed", "mixed", "mixed"]))
-        rows = G.matrix(rng, m, n, family, positive, ties=rng.choice([0.0, 0.15, 0.4]), dups=rng.choice([0.0, 0.1]))
+        if family == "unit":
+            rows, ukind = _unit_matrix(rng, m, n, positive, ties=rng.choice([0.0, 0.15, 0.4]))
+            if rows is None:
+                continue
+            family = "unit:" + ukind
+        else:
+            rows = G.matrix(rng, m, n, family, positive, ties=rng.choice([0.0, 0.15, 0.4]), dups=rng.choice([0.0, 0.1]))
         if family == "dyadic" and rng.random() < 0.5:
             # integer-valued criteria, declared int
             for j in range(n):
@@ -258,10 +341,12 @@ def one_case(rng, max_m=12):
         seq = _sequence(rng, spec, A, objs)
         if seq is None:
             continue
-        w1 = G.weights(rng, n, family)
-        w2 = G.weights(rng, n, family)
-        if w2 == w1:
-            w2 = [x * 2 + 0.0625 for x in w1]
+        wk1, w1 = _incoming(rng, n, family, spec)
+        wk2, w2 = _incoming(rng, n, family, spec)
+        if wk2 == "absent" or w2 == w1:  # the second vector is always written out, and differs from the first
+            wk2, w2 = "distinct", G.weights(rng, n, "dyadic" if family == "dyadic" else "float")
+            if w2 == w1:
+                w2 = [x * 2 + 0.0625 for x in w2]
         rp = list(range(m))
         cp = list(range(n))
         while rp == list(range(m)):
@@ -270,7 +355,8 @@ def one_case(rng, max_m=12):
             rng.shuffle(cp)
         return {
             "kind": "weigh", "spec": spec,
-            "dm": {"matrix": rows, "objectives": objs, "weights": w1, "alternatives": G.labels(rng, G.LABEL_POOL_ALT, m),
+            "dm": {"matrix": rows, "objectives": objs, "weights": w1 if w1 is not None else [1.0] * n, "no_weights": w1 is None,
+                   "weights_kind": wk1, "weights2_kind": wk2, "alternatives": G.labels(rng, G.LABEL_POOL_ALT, m),
                    "criteria": G.labels(rng, G.LABEL_POOL_CRIT, n), "dtypes": dtypes, "family": family},
             "row_perm": rp, "col_perm": cp, "weights2": w2, "seq": seq,
         }
@@ -291,13 +377,14 @@ def _mk(dm, rows=None, cols=None, weights=None):
     m, n = len(dm["matrix"]), len(dm["objectives"])
     rows = list(range(m)) if rows is None else rows
     cols = list(range(n)) if cols is None else cols
+    absent = weights is None and dm.get("no_weights")  # built WITHOUT weights: the library's default (all ones) applies
     w = dm["weights"] if weights is None else weights
     mat = np.array([[dm["matrix"][i][j] for j in cols] for i in rows], dtype=float)
     dts = dm.get("dtypes") or ["float"] * n
     with warnings.catch_warnings():
         warnings.simplefilter("ignore")
         return skc.mkdm(
-            mat, [dm["objectives"][j] for j in cols], weights=np.array([w[j] for j in cols], dtype=float),
+            mat, [dm["objectives"][j] for j in cols], weights=None if absent else np.array([w[j] for j in cols], dtype=float),
             alternatives=[dm["alternatives"][i] for i in rows], criteria=[dm["criteria"][j] for j in cols],
             dtypes=[int if dts[j] == "int" else float for j in cols],
         )
@@ -578,6 +665,10 @@ def tags(case, obs):
         t.append("ties-in-a-criterion")
     if "int" in d["dtypes"]:
         t.append("int-dtype-criterion")
+    t.append("incoming-weights:" + d.get("weights_kind", "distinct"))
+    t.append("second-incoming-weights:" + d.get("weights2_kind", "distinct"))
+    if all(0.0 <= x <= 1.0 for r in d["matrix"] for x in r):
+        t.append("all-cells-in-unit-interval")
     seq = case.get("seq", [])
     if seq:
         k = sum(1 for a, b in zip(o, seq[0]["objectives"]) if a != b)
